@@ -58,7 +58,26 @@ pub const ODD_NAMES: &[&str] = &[
     "tab\there", "new\nline", "very_long_variable_name_0123456789_abcdefghijklmnopqrstuvwxyz",
     "0", "-1", "null", "{\"a\":1}", "v0", "v1", "v2", "v3", "a,b", "a", "b", "a|b", ",", "x,y",
     "東京証券取引所の休日カレンダーの名前です", "€€€€€€€€€€€€€€€€€€€€",
+    // hostile to naive text processing of the saved form
+    "desk\\", "NaN", "NaN_guard", "Infinity", "-Infinity", "nan", "true", "false", "\"", "\\\"", "{", "}", "[",
+    "]", ":", "\\", "\\\\", "/*", "//", "\u{0}", "\u{7f}", "\u{feff}",
 ];
+
+/// Names that are hostile to naive text processing of the saved form.
+pub const HOSTILE_NAMES: &[&str] = &[
+    "desk\\", "NaN", "NaN_guard", "Infinity", "-Infinity", "nan", "null", "true", "false", "\"", "\\\"",
+    "{", "}", "[", "]", ":", ",", "\\", "\\\\", "a\\", "b\\\"c", "Infinity\\",
+];
+
+pub fn hostile_names(rng: &mut Rng, count: usize) -> Vec<String> {
+    let mut idx: Vec<usize> = (0..HOSTILE_NAMES.len()).collect();
+    rng.shuffle(&mut idx);
+    idx.into_iter()
+        .take(count)
+        .map(|i| HOSTILE_NAMES[i].to_string())
+        .collect()
+}
+
 
 pub fn odd_names(rng: &mut Rng, count: usize) -> Vec<String> {
     let mut idx: Vec<usize> = (0..ODD_NAMES.len()).collect();
@@ -154,12 +173,30 @@ pub fn gen_cal(rng: &mut Rng, working_day: u8, max_hols: usize) -> CalSpec {
         _ => rng.usize_in(1, max_hols.max(1)),
     };
     let mut holidays = Vec::new();
-    let mut day = rng.i64_in(10957, 20000);
+    // mostly 2000-2055; sometimes anywhere chrono can represent comfortably, including
+    // years beyond 9999 and before the common era
+    let mut day = match rng.below(30) {
+        0 => rng.i64_in(2_932_897, 6_000_000), // years 10000..18000
+        1 => rng.i64_in(-2_500_000, -719_163), // years -4800..0
+        2 => rng.i64_in(-719_162, 2_932_000),  // years 1..9999
+        _ => rng.i64_in(10957, 20000),
+    };
+    // rarely: a calendar with more holidays than fit a 16-bit count
+    let nh = if max_hols >= 60 && rng.chance(0.01) {
+        rng.usize_in(65_530, 70_000)
+    } else {
+        nh
+    };
+    let huge = nh > 60_000;
     for _ in 0..nh {
-        day += match rng.below(5) {
-            0 | 1 => 1, // runs of consecutive holidays
-            2 => rng.i64_in(2, 9),
-            _ => rng.i64_in(10, 400),
+        day += if huge {
+            1
+        } else {
+            match rng.below(5) {
+                0 | 1 => 1, // runs of consecutive holidays
+                2 => rng.i64_in(2, 9),
+                _ => rng.i64_in(10, 400),
+            }
         };
         let (secs, nanos) = if rng.chance(0.04) {
             (rng.i64_in(1, DAY - 1), if rng.chance(0.3) { rng.below(1_000_000_000) as u32 } else { 0 })
